@@ -506,7 +506,10 @@ def run_family(name, dmax, rec):
 # ------------------------------------------------------------------ timed families (work inside C regular expressions)
 
 TIMED = {'quoted-title': 31, 'quoted-title-unterminated': 31, 'spaces': 12, 'upper-run': 12, 'digits-then-letter': 12, 'quote-run': 12,
-         'dollar-run': 12}
+         'dollar-run': 12, 'sparse-far': 12}
+# families whose size parameter adds no content (three stored cells, one of them further and further from the origin): the time
+# must not depend on the size at all
+FLAT = {'sparse-far'}
 TIMED_LIMIT = 90.0
 
 
@@ -518,6 +521,9 @@ def timed_model(name, d):
         t = t.rstrip() or 'T'
         sheets.append({'title': t, 'cells': {'A1': 5}})
         cells['C1'] = f"='{t}'!A1+1" if name == 'quoted-title' else f"='{t}"
+    elif name == 'sparse-far':
+        cells['B1'] = 2
+        cells[wbk.a1(50 * d, 2000 * d)] = 3
     elif name == 'spaces':
         cells['C1'] = '=1' + (' ' * (300 * d)) + '+' + ('\t' * (100 * d)) + '2'
     elif name == 'upper-run':
@@ -583,6 +589,10 @@ def run_timed_family(name, dmax, rec):
             elif rec is not None:
                 rec.count('timed_inconclusive')
             break
+        if name in FLAT and r['elapsed'] > 3.0 and hist[0][1] < 0.3 and r['elapsed'] > 20 * max(hist[0][1], 0.01):
+            fails.append({'case': case, 'expected': f'processor time independent of the distance of the last cell (size 1: {hist[0][1]} s)', 'actual': hist[-4:],
+                          'relation': 'translation-terminates', 'bucket': f'timed:{name}:growth', 'extra': {'first': hist[0], 'last': hist[-1]}})
+            break
         if len(hist) >= 4:
             last = hist[-4:]
             ratios = [last[i + 1][1] / max(last[i][1], 1e-3) for i in range(3)]
@@ -608,6 +618,9 @@ UNSUPPORTED = ['=FOO(1)', '=sum(1)', '=SQRT(4)', '=A1^2', '=ABS(-1)', '=LEN("a")
                '=IFS(0,1,2)', '=5%5%', '=1%2', '=(1+2)%', '=10%%', '=TRUE()()', '=@SUM(1)', '=_x(1)', '=A1!B1', '=S!S!A1', "=''!A1", '=!A1', '=1:2', '=A:1',
                '=INDEX(A1:A3,A1:A3)', '=COUNT((0))', '=SUMIF(A1:A3,">1",B:B)', '=VLOOKUP(1,A1,1)', '=MATCH(1,A1:A3&A1:A3&A1:A3,0)', '=ADDRESS(1,2,3,4,5,6,7)',
                '=COLUMN(A1:B2:C3)', '=DATE(1,2)', '=TEXT(1)', '=1' + '+1' * 60, '=-' * 3 + '1', '=--1', '=1--1', '="a"&', '=&"a"', '=<>1', '=1<>', '=1=<2',
+               '=COUNTIFS(A1:A3,"<-007")', '=COUNTIFS(A1:A3,"<>-08")', '=SUMIF(A1:A3,">=-010")', '=COUNTIFS(A1:A3,"=-00")', '=COUNTIFS(A1:A3,"<-00.5")', '=COUNTIFS(A1:A3,">+007")',
+               '=COUNTIFS(A1:A3,"-007")', '=COUNTIFS(A1:A3,"+08")', '=COUNTIFS(A1:A3,"<-1e-5")', '=COUNTIFS(A1:A3,">-1e999")', '=COUNTIFS(A1:A3,"<--5")', '=COUNTIFS(A1:A3,">-")',
+               '=COUNTIFS(A1:A3,">-0x10")', '=COUNTIFS(A1:A3,"<-1_0")', '=AVERAGEIFS(D1:D2,A1:A2,">-09")', '=SUMIFS(D1:D2,A1:A2,"<>-0")', '=COUNTIFS(A1:A3,">1e+5")', '=COUNTIFS(A1:A3,">1E-5")',
                '=COUNTIFS(A1:A3,">007")', '=COUNTIFS(A1:A3,">٣")', '=SUMIF(A1:A3,"<=0010")', '=COUNTIFS(A1:A3,"=1_000")', '=COUNTIFS(A1:A3,">1E5")', '=COUNTIFS(A1:A3,">.5")',
                '=COUNTIFS(A1:A3,"> 5")', '=COUNTIFS(A1:A3,">-5")', '=COUNTIFS(A1:A3,">+5")', '=COUNTIFS(A1:A3,">5.")', '=COLUMN(ABCD1)', '=COLUMN(A0)', '=COLUMN(A0:B2)',
                '=SUM(A1:A3)(1)', '=SUM (1)', '=S U M(1)', '=SUMM(1)', '=IFF(1,2,3)', '=TRUEFALSE', '=TRUE1', '=FALSE0', '=A1B2', '=1A', '=A', '=AB', '=$', '=$A', '=A$',
